@@ -87,7 +87,11 @@ Props ==
 TBogus == /\ (IsEvent("unknown") \/ IsEvent("lost"))
           /\ Check(2, "C03 handlers did not receive exactly the lines that were sent", FALSE)
           /\ UNCHANGED <<vars, lastLine>>
-TNext == (TEnter \/ TExit \/ TRecover \/ TIPanic \/ TDisc \/ TReset \/ TBogus) /\ Props
+\* the connection ended but the foreground never received DISCONNECTED while a background handler was blocked
+TNoDisc == /\ IsEvent("nodisc")
+           /\ Check(4, "C16 a background handler that never returns kept DISCONNECTED from being delivered", FALSE)
+           /\ UNCHANGED <<vars, lastLine>>
+TNext == (TEnter \/ TExit \/ TRecover \/ TIPanic \/ TDisc \/ TReset \/ TBogus \/ TNoDisc) /\ Props
 TraceSpec == TInit /\ [][TNext]_tvars
 
 HW == TLCSet(1, IF l > TLCGet(1) THEN l ELSE TLCGet(1))
